@@ -107,8 +107,10 @@ def solve_isolated(ob, second_opinion=False, on_sat=None):
                     try:
                         out['extra'] = on_sat(ob)
                     except Exception as e:
+                        import traceback
                         out['extra'] = {'status': 'no-replay',
-                                        'why': repr(e)[:300]}
+                                        'why': repr(e)[:300],
+                                        'trace': traceback.format_exc()[-1500:]}
         except BaseException as e:         # noqa
             out['error'] = repr(e)[:300]
         try:
@@ -145,6 +147,48 @@ def solve_isolated(ob, second_opinion=False, on_sat=None):
     return res
 
 
+def _int_consts(fs):
+    seen, out, todo = set(), {}, list(fs)
+    while todo:
+        e = todo.pop()
+        i = e.get_id()
+        if i in seen:
+            continue
+        seen.add(i)
+        if z3.is_const(e) and e.decl().kind() == z3.Z3_OP_UNINTERPRETED \
+                and z3.is_int(e):
+            out[e.decl().name()] = e
+        elif z3.is_quantifier(e):
+            todo.append(e.body())
+        else:
+            todo.extend(e.children())
+    return out
+
+
+def _small_model(ob):
+    """counterexamples are replayed on the real code: look for a model
+    with short strings / lists and small integers (the first model z3 finds
+    often has lengths in the ten thousands, which cannot be concretised)"""
+    try:
+        consts = _int_consts([sym.zbool(p) for p in ob.pc] +
+                             [sym.zbool(ob.goal)])
+    except Exception:      # noqa
+        return None
+    for bound in (12, 48):
+        s = build_solver(ob, 4000)
+        for name, c in consts.items():
+            if '_len' in name or name.startswith('len'):
+                s.add(c >= 0, c <= bound)
+            else:
+                s.add(c >= -bound, c <= 4 * bound)
+        if _watchdog_check(s, 6) == z3.sat:
+            try:
+                return s.model()
+            except z3.Z3Exception:
+                return None
+    return None
+
+
 def solve(ob, want_model=True, second_opinion=False):
     t0 = time.time()
     if ob.kind == 'canary':
@@ -169,6 +213,9 @@ def solve(ob, want_model=True, second_opinion=False):
                 ob.model = s.model()
             except z3.Z3Exception:
                 ob.model = None
+            small = _small_model(ob)
+            if small is not None:
+                ob.model = small
     else:
         ob.status = 'unknown'
         ob.reason = s.reason_unknown()
